@@ -6,5 +6,7 @@ CONSTANTS
   ClearsLongData = TRUE
   RemoveOnClose = TRUE
   ReprepareFresh = TRUE
+  ClearsOnlyOwn = TRUE
+  KeepsEmptyLong = TRUE
 INVARIANTS P_Registry P_Agree EmitReplay
 CHECK_DEADLOCK FALSE
